@@ -438,3 +438,216 @@ def witnesses(ctx, rid, tags):
     if n == 0:
         ctx.broken("no witness tagged for %s" % tags)
     return n
+
+
+# -------------------------------------------------- acquisition summaries (C08)
+ACQ_METHODS = ("lock", "try_lock", "try_lock_for", "try_lock_until", "lock_shared",
+               "try_lock_shared", "try_lock_shared_for", "try_lock_shared_until")
+
+
+def acquisition_summaries(ctx, rid, classes, opt_classes=()):
+    """A2 summaries of every acquisition method of the wrappers:
+       lock/lock_shared      -> one alternative: (&m_obj, own mutex, held, blocking)
+       try_*                 -> exactly {(&m_obj, own mutex, held), (null, -, unowned)}, non-blocking
+       *_opt, enabled==false -> (&m_obj, no mutex, unowned): immediate, never waits"""
+    ctx.rule(rid, "every acquisition method returns a handle that is non-null exactly on the path where it "
+             "holds the object's own mutex; try forms never use a blocking acquisition; with locking disabled "
+             "the handle is usable and no mutex is involved", floor=40)
+    fb, eng = ctx.fb, ctx.eng
+    for cls in classes:
+        seen = 0
+        for f in fb.functions(rec=cls):
+            if f.name not in ACQ_METHODS:
+                continue
+            seen += 1
+            s = eng.handle_summary(f)
+            site = f.where
+            if s is None:
+                ctx.ob(rid, False, site, "%s::%s return paths understood" % (cls.split("::")[-1], f.name),
+                       "cannot summarise the returned handle", fn=f.label, inst=f.qname)
+                continue
+            is_try = f.name.startswith("try_")
+            en = [a for a in s if not (a.get("cond") and a["cond"][0] == "this.enabled" and a["cond"][1] is False)]
+            dis = [a for a in s if a.get("cond") and a["cond"][0] == "this.enabled" and a["cond"][1] is False]
+            if cls in opt_classes:
+                ok = bool(dis) and all(a["data"] == "&this.m_obj" and a["mutex"] is None and a["st"] == UNOWNED
+                                       and not a["blocking"] for a in dis)
+                ctx.ob(rid, ok, site, "%s with locking disabled returns a usable handle with a non-owning lock and no mutex"
+                       % f.name, "" if ok else "disabled alternatives: %s" % _alts(dis), fn=f.label, inst=f.qname)
+                ok = all(a.get("cond") and a["cond"] == ("this.enabled", True) for a in en) and bool(en)
+                ctx.ob(rid, ok, site, "%s locks exactly when 'enabled' is true" % f.name,
+                       "" if ok else "alternatives not conditioned on enabled: %s" % _alts(en), fn=f.label, inst=f.qname)
+            else:
+                ok = not dis
+                ctx.ob(rid, ok, site, "%s has no lock-free alternative" % f.name, "" if ok else _alts(dis),
+                       fn=f.label, inst=f.qname)
+            if is_try:
+                owned = [a for a in en if a["st"] == HELD]
+                rest = [a for a in en if a["st"] != HELD]
+                ok = (bool(owned) and all(a["data"] == "&this.m_obj" and a["mutex"] == "this.m_mutex" for a in owned)
+                      and bool(rest) and all(a["data"] is None and a["st"] == UNOWNED for a in rest))
+                ctx.ob(rid, ok, site, "%s returns &m_obj iff it owns m_mutex, a null handle otherwise" % f.name,
+                       "" if ok else "alternatives: %s" % _alts(en), fn=f.label, inst=f.qname)
+                ok = not any(a["blocking"] for a in en)
+                ctx.ob(rid, ok, site, "%s never uses a blocking acquisition" % f.name,
+                       "" if ok else "a return path acquires with the blocking constructor", fn=f.label, inst=f.qname)
+            else:
+                ok = bool(en) and all(a["data"] == "&this.m_obj" and a["mutex"] == "this.m_mutex" and
+                                      a["st"] == HELD and a["blocking"] for a in en)
+                ctx.ob(rid, ok, site, "%s returns &m_obj with m_mutex held (blocking acquisition)" % f.name,
+                       "" if ok else "alternatives: %s" % _alts(en), fn=f.label, inst=f.qname)
+            # handle mode fits the method: exclusive forms must be X
+            shared = "shared" in f.name or f.constm
+            if not shared:
+                ok = all(a["mode"] == "X" for a in en)
+                ctx.ob(rid, ok, site, "%s (exclusive form) holds the mutex in exclusive mode" % f.name,
+                       "" if ok else _alts(en), fn=f.label, inst=f.qname)
+        if seen == 0:
+            ctx.broken("class %s has no acquisition method instantiated" % cls)
+
+
+def _alts(s):
+    return "; ".join("(data=%s mutex=%s %s%s)" % (a["data"], a["mutex"], a["st"], " blocking" if a.get("blocking") else "")
+                     for a in s)
+
+
+def unlock_rule(ctx, rid, cls):
+    """handle.unlock(): data is null afterwards on every path; the lock is
+    released iff owned; operator bool is (data != nullptr)"""
+    ctx.rule(rid, "unlock() nulls the pointer on every path and releases the lock iff it is owned (exactly once); "
+             "operator bool is data != nullptr", floor=6)
+    from .engine import LockAnalysis, LockVal
+    fb, eng = ctx.fb, ctx.eng
+    n = 0
+    for f in fb.functions(rec=cls, name="unlock"):
+        n += 1
+        site = f.where
+        # data = nullptr post-dominates the entry
+        assigns = []
+        for st in f.stmts.values():
+            if st["k"] == "BinaryOperator" and st["op"] == "=" and path(f, f.children(st)[0]) == "this.data":
+                r = unwrap(f, f.children(st)[1])
+                if r is not None and r["k"] == "CXXNullPtrLiteralExpr":
+                    assigns.append(st)
+        ok = any(f.pos_of(a) is not None and f.postdominates(f.pos_of(a), (f.entry, 0)) for a in assigns)
+        ctx.ob(rid, ok, site, "unlock() sets data to nullptr on every path", "" if ok else
+               "no 'data = nullptr' that post-dominates the entry", fn=f.label, inst=f.qname)
+        la = LockAnalysis(eng, f, entry_state={"this.m_handle_lock": LockVal("<handle mutex>", "X", MAYBE)})
+        bad = None
+        calls = 0
+        for st in f.stmts.values():
+            if st["k"] == "CXXMemberCallExpr" and st["callee"]["name"] == "unlock" and \
+                    path(f, f.s(st["obj"])) == "this.m_handle_lock":
+                calls += 1
+                v = la.state_at(f.pos_of(st)).get("this.m_handle_lock")
+                if v is None or v.st != HELD:
+                    bad = f.loc(st)
+        ctx.ob(rid, calls >= 1 and bad is None, site, "m_handle_lock.unlock() is called only where owns_lock() is known true",
+               "" if calls >= 1 and bad is None else ("unlock() on a possibly unowned lock at %s" % bad if bad else
+                                                      "the lock is never released"), fn=f.label, inst=f.qname)
+        exit_state = la.block_in.get(f.exit, {})
+        v = exit_state.get("this.m_handle_lock")
+        ok = v is not None and v.st == UNOWNED
+        ctx.ob(rid, ok, site, "after unlock() the handle's lock is unowned on every path",
+               "" if ok else "state at exit: %s" % (v.st if v else "?"), fn=f.label, inst=f.qname)
+    for f in fb.functions(rec=cls, name="operator bool"):
+        n += 1
+        rets = [s for s in f.stmts.values() if s["k"] == "ReturnStmt"]
+        ok = False
+        if len(rets) == 1:
+            e = unwrap(f, f.children(rets[0])[0])
+            if e is not None and e["k"] == "BinaryOperator" and e["op"] == "!=":
+                l, r = f.children(e)
+                ops = {path(f, l) or unwrap(f, l)["k"], path(f, r) or unwrap(f, r)["k"]}
+                ok = ops == {"this.data", "CXXNullPtrLiteralExpr"}
+        ctx.ob(rid, ok, f.where, "operator bool returns (data != nullptr)", "" if ok else "different expression",
+               fn=f.label, inst=f.qname)
+    if n == 0:
+        ctx.broken("no unlock()/operator bool instantiation of %s" % cls)
+
+
+# ------------------------------------------------------------- call closure
+def call_closure(fb, f, limit=400):
+    """functions (with bodies under the roots) reachable from f through
+    resolved callees; virtual calls fan out to every same-named virtual
+    override that was extracted.  Returns list of (function, via call stmt, caller)."""
+    seen = {(f.unit.name, f.id)}
+    out = [(f, None, None)]
+    work = [f]
+    while work and len(out) < limit:
+        g = work.pop()
+        for st in g.stmts.values():
+            cands = []
+            if st["k"] in CALLS or st["k"] in CTORS:
+                c = st.get("callee")
+                if not c:
+                    continue
+                h = g.unit.fn_by_id.get(c["id"])
+                if h is not None:
+                    cands.append(h)
+                elif c.get("virtual"):
+                    for h2 in g.unit.functions:
+                        if h2.name == c["name"] and h2.d.get("virtual") and not h2.invalid:
+                            cands.append(h2)
+            elif st["k"] == "LambdaExpr":
+                for oid in st.get("call_ops", []):
+                    h = g.unit.fn_by_id.get(oid)
+                    if h is not None:
+                        cands.append(h)
+            for h in cands:
+                k = (h.unit.name, h.id)
+                if k in seen or h.invalid:
+                    continue
+                seen.add(k)
+                out.append((h, st, g))
+                work.append(h)
+        # implicit destructor calls of in-repo types
+        for b in g.blocks.values():
+            for e in b.elems:
+                d = e.get("dtor") if isinstance(e.get("dtor"), dict) else None
+                if d and d.get("id"):
+                    h = g.unit.fn_by_id.get(d["id"])
+                    if h is not None and (h.unit.name, h.id) not in seen and not h.invalid:
+                        seen.add((h.unit.name, h.id))
+                        out.append((h, None, g))
+                        work.append(h)
+    return out
+
+
+def try_paths_nonblocking(ctx, rid, classes):
+    """C08.nonblocking: nothing reachable from a try_* acquisition method
+    blocks on the object's own mutex (the try forms must give up, not wait);
+    other blocking acquisitions must be on the short internal sections listed
+    in tables/internal_sections.json"""
+    import json
+    tab = json.load(open(os.path.join(VERIF, "tables", "internal_sections.json")))["allowed"]
+    ctx.rule(rid, "try_* acquisition methods never reach a blocking acquisition of the object's own mutex; any "
+             "other blocking acquisition on the way is one of the listed short internal sections", floor=20)
+    fb, eng = ctx.fb, ctx.eng
+    for cls in classes:
+        for f in fb.functions(rec=cls):
+            if not f.name.startswith("try_"):
+                continue
+            viol = []
+            n_int = 0
+            for g, via, caller in call_closure(fb, f):
+                la = locks_of(eng, fb, g)
+                top = top_function(fb, g) if g.is_lambda else g
+                for pos, key, v, kind, st in la.acquire_events:
+                    if kind is not True or not v.mutex:
+                        continue
+                    if v.mutex.startswith("p:") and (handle_class(g.recq or "") or
+                                                     g.fq.startswith("gmlc::libguarded::try_lock_") or
+                                                     g.rec == "gmlc::libguarded::shared_locker"):
+                        continue    # accounted for at the construct/call expression in the caller
+                    node = mutex_node(fb, g, top, v.mutex)
+                    if top.rec == cls and v.mutex == "this.m_mutex":
+                        viol.append("%s blocks on the object's own m_mutex at %s" % (g.name, g.loc(st)))
+                        continue
+                    okn = any(re.search(a["node"], node or "") for a in tab)
+                    if okn:
+                        n_int += 1
+                    else:
+                        viol.append("%s blocks on %s at %s" % (g.name, node, g.loc(st)))
+            ctx.ob(rid, not viol, f.where, "%s::%s cannot wait for the object's mutex" % (cls.split("::")[-1], f.name),
+                   "; ".join(viol[:3]), fn=f.label, inst=f.qname)
